@@ -96,3 +96,51 @@ func VerifTokenAwareReplicas(p HostSelectionPolicy, keyspace string, routingKey 
 	}
 	return append([]*HostInfo(nil), ht.hosts...), true, true
 }
+
+// VerifPolicyHosts is a read-only view of the host lists a built-in selection policy keeps:
+// list name -> host ids, for the policy and (token-aware) its fallback. It reports false
+// for a policy it does not know.
+func VerifPolicyHosts(p HostSelectionPolicy) (map[string][]string, bool) {
+	out := map[string][]string{}
+	ids := func(hs []*HostInfo) []string {
+		r := make([]string, 0, len(hs))
+		for _, h := range hs {
+			r = append(r, h.HostID())
+		}
+		return r
+	}
+	switch t := p.(type) {
+	case *roundRobinHostPolicy:
+		out["round-robin"] = ids(t.hosts.get())
+	case *dcAwareRR:
+		out["dc-aware.local"] = ids(t.localHosts.get())
+		out["dc-aware.remote"] = ids(t.remoteHosts.get())
+	case *rackAwareRR:
+		var all []*HostInfo
+		for i := range t.hosts {
+			all = append(all, t.hosts[i].get()...)
+		}
+		out["rack-aware"] = ids(all)
+	case *tokenAwareHostPolicy:
+		out["token-aware.hosts"] = ids(t.hosts.get())
+		if meta := t.getMetadataReadOnly(); meta != nil && meta.tokenRing != nil {
+			seen := map[string]bool{}
+			var ring []string
+			for _, ht := range meta.tokenRing.tokens {
+				if id := ht.host.HostID(); !seen[id] {
+					seen[id] = true
+					ring = append(ring, id)
+				}
+			}
+			out["token-aware.ring"] = ring
+		}
+		if fb, ok := VerifPolicyHosts(t.fallback); ok {
+			for k, v := range fb {
+				out["fallback."+k] = v
+			}
+		}
+	default:
+		return nil, false
+	}
+	return out, true
+}
